@@ -418,6 +418,7 @@ func rulePoolReset(r *Run, id string) {
 					}
 				}
 				collect(buf, 0)
+				var resets []ssa.Instruction
 				for _, g := range gets {
 					allInstrs(fn, func(x ssa.Instruction) {
 						c, isCall := x.(*ssa.Call)
@@ -437,10 +438,72 @@ func rulePoolReset(r *Run, id string) {
 						}
 						if root == g || root == target {
 							if _, isBuf := deref(c.Call.Args[0].Type()).(*types.Named); isBuf && strings.HasSuffix(deref(c.Call.Args[0].Type()).String(), "bytes.Buffer") {
-								ok = true
+								resets = append(resets, x)
 							}
 						}
 					})
+				}
+				// "on acquisition" means before anything else is done with the recycled object: from the Get, no call
+				// that takes the object (or something inside it) is reachable without passing one of those Resets — or
+				// the allocation of the fresh object the Get's nil result is replaced by
+				if len(resets) > 0 && len(gets) > 0 {
+					var fresh []ssa.Instruction
+					if ph, isPhi := canonVal(buf).(*ssa.Phi); isPhi {
+						for _, e := range ph.Edges {
+							if a, isA := e.(*ssa.Alloc); isA {
+								fresh = append(fresh, a)
+							}
+						}
+					}
+					var getIns ssa.Instruction
+					for _, g := range gets {
+						if ta, isTA := g.(*ssa.TypeAssert); isTA {
+							if c, isC := ta.X.(*ssa.Call); isC {
+								getIns = c
+							}
+						}
+					}
+					if getIns != nil {
+						w := reachesWithout(getIns, func(x ssa.Instruction) bool {
+							cc := instrCall(x)
+							if cc == nil || x == ins {
+								return false
+							}
+							for _, r := range resets {
+								if x == r {
+									return false
+								}
+							}
+							for _, a := range cc.Args {
+								root := objectRoot(a)
+								if ex, isEx := root.(*ssa.Extract); isEx {
+									root = ex.Tuple
+								}
+								if root == target {
+									return true
+								}
+								for _, g := range gets {
+									if root == g {
+										return true
+									}
+								}
+							}
+							return false
+						}, func(x ssa.Instruction) bool {
+							for _, r := range resets {
+								if x == r {
+									return true
+								}
+							}
+							for _, f := range fresh {
+								if x == f {
+									return true
+								}
+							}
+							return false
+						})
+						ok = w == nil
+					}
 				}
 			}
 			r.Check(fmt.Sprintf("%s Put#%d", name, n), ok, posOf(p, ins), name, "the buffer returned to the pool must have been Reset() on every path (a directly deferred Put, or a Put without a dominating Reset, recycles stale bytes)")
